@@ -3,6 +3,8 @@
 pub mod arith;
 pub mod bccheck;
 pub mod budget;
+pub mod cli;
+pub mod compile;
 pub mod diverge;
 pub mod equiv;
 pub mod expr;
@@ -19,10 +21,17 @@ use crate::json::J;
 
 pub fn parts(prop: &str) -> Option<Vec<(String, &'static str)>> {
     Some(match prop {
-        "C01" | "C03" | "C04" | "C05" | "C06" | "C07" | "C08" | "C09" | "C10" | "C17" | "C11" | "C12" | "C14" | "C15" | "C18" => {
+        "C01" | "C03" | "C04" | "C05" | "C06" | "C07" | "C08" | "C09" | "C10" | "C16" | "C17" | "C11" | "C12" | "C14" | "C15" | "C18" => {
             vec![(prop.to_string(), "release")]
         }
         "C02" => vec![("C02.release".into(), "release"), ("C02.relda".into(), "relda")],
+        "C13" => vec![
+            ("C13.total.release".into(), "release"),
+            ("C13.total.relda".into(), "relda"),
+            ("C13.det".into(), "release"),
+            ("C13.reuse".into(), "release"),
+            ("C13.scale".into(), "release"),
+        ],
         _ => return None,
     })
 }
@@ -38,6 +47,8 @@ pub fn worker(ctx: &mut WorkerCtx) {
         "C06" => memsafe::c06_worker(ctx),
         "C10" => memsafe::c10_worker(ctx),
         "C17" => memsafe::c17_worker(ctx),
+        "C16" => cli::worker(ctx),
+        c if c.starts_with("C13.") => compile::worker(ctx),
         "C07" => budget::worker(ctx),
         "C08" => iofault::worker(ctx),
         "C09" => tape::worker(ctx),
@@ -63,6 +74,8 @@ pub fn info(prop: &str, tier: Tier) -> CheckInfo {
         "C06" => memsafe::info("C06", tier),
         "C10" => memsafe::info("C10", tier),
         "C17" => memsafe::info("C17", tier),
+        "C13" => compile::info(tier),
+        "C16" => cli::info(tier),
         "C07" => budget::info(tier),
         "C08" => iofault::info(tier),
         "C09" => tape::info(tier),
@@ -85,6 +98,8 @@ pub fn replay(j: &J) -> (bool, String) {
         Some("smallvec") => smallvec::replay_case(j),
         Some("expr") => expr::replay_case(j),
         Some("bytecode") => bccheck::replay_case(j),
+        Some("compile") => compile::replay_case(j),
+        Some("cli") => cli::replay_case(j),
         Some("case") => {
             let sub = j.str("check").unwrap_or("");
             let tier = Tier::parse(j.str("tier").unwrap_or("quick")).unwrap_or(Tier::Quick);
@@ -115,7 +130,7 @@ fn replay_exec(j: &J) -> (bool, String) {
         "C04" => equiv::replay_program(&mut ctx, "C04", Backend::Inplace, &program),
         "C05" => diverge::replay_program(&mut ctx, &program),
         "C07" => budget::replay_program(&mut ctx, &program),
-        "C06" | "C10" | "C17" => memsafe::replay_program(&mut ctx, prop, &program),
+        "C06" | "C10" | "C16" | "C17" => memsafe::replay_program(&mut ctx, prop, &program),
         "C08" => iofault::replay_program(&mut ctx, &program),
         _ => return (false, format!("no replay for property {prop}")),
     }
